@@ -404,7 +404,8 @@ func (fr *Frame) builtin(ins *ssa.Call, b *ssa.Builtin, c *ssa.CallCommon, reach
 		k := fr.mapKey(fr.val(c.Args[1], st))
 		dn, ds := mapDomVar(mt)
 		vc.noteSort(dn, ds)
-		st.m[dn] = Ite(Eq(m, Zero), vc.sv(st, dn, ds), Sto2(vc.sv(st, dn, ds), m, k, TFalse))
+		cur := vc.define(dn, ds, vc.sv(st, dn, ds))
+		st.m[dn] = Ite(Eq(m, Zero), cur, Sto2(cur, m, k, TFalse))
 	case "ssa:deferstack":
 		setRes(scalar(ins.Type(), Zero))
 	case "ssa:wrapnilchk":
